@@ -105,10 +105,7 @@ def run(chk):
         if ok:
             proved, f2 = V.prove(chk, "C15", [])
             fails += f2
-        if not ok:
-            chk.violation({"property": "C15", "kind": "obligation no longer checks", "broken": [{"what": a, "name": b, "detail": c} for a, b, c in fails]}, no_input=True)
-            return
-        pkg = json.load(open(os.path.join(V.GEN, "pkg.json")))
+        pkg = CS.load_pkg(mmv)
         base = CP.sys_cases(mmv, pkg) + CP.site_stream(mmv, pkg, shapes=((1, 3),)) + CP.rand_cases(mmv, pkg, rng, 1, 1)
         if chk.tier == "quick":
             base = [c for i, c in enumerate(base) if c["kind"] != "valid-sys" or i % 3 != 0]
@@ -132,10 +129,10 @@ def run(chk):
                     pairs.append((c, {"target": c["target"], "input": j, "kind": "extras-" + mode}))
         cases = [p[1] for p in pairs]
         plain = [dict(p[0], mmty=None) for p in pairs]
-        verdict, real = CS.run_cases(cases, "C15")
-        _, real0 = CS.run_cases(plain, "C15b")
+        verdict, real = CS.run_cases(cases, "C15", model=ok)
+        _, real0 = CS.run_cases(plain, "C15b", model=False)
     nbad = sum(1 for v in verdict if v)
-    chk.obligation("correspondence:Sem-vs-real-converter(extras)", nbad == 0, "%d cases, %d disagreements" % (len(cases), nbad))
+    chk.obligation("correspondence:Sem-vs-real-converter(extras)", ok and nbad == 0, "%d cases, %d disagreements" % (len(cases), nbad))
     chk.extra["traces_validated_against_impl"] = len(cases)
     if nbad:
         i = [k for k, v in enumerate(verdict) if v][0]
